@@ -331,7 +331,7 @@ def _next_u(run, s):
 @specfn('unext')
 def _unext(run, s, k):
     """state after k scalar uniform draws"""
-    f = F('iter_next_u', smt.Rng, Int, smt.Rng)
+    f = F('iterx_next_u', smt.Rng, Int, smt.Rng)
     return OpaqueV(f(_rs(s), intterm(k)), 'rngstate')
 
 
@@ -394,3 +394,30 @@ def _argmax_over(run, n):
     finally:
         run.frames[-1].env = saved
     return ArmV(T.margmax(s.term, z3.Lambda([a], body)))
+
+
+mvals = F('mvals', ASeq, z3.ArraySort(Arm, Real), RSeq)     # list(d.values())
+_s = z3.Const('s', ASeq)
+_c = z3.Const('c', z3.ArraySort(Arm, Real))
+_i = z3.Int('i')
+smt.axiom('mvals.len', smt.forall([_s, _c], T.rlen(mvals(_s, _c)) == T.alen(_s), [mvals(_s, _c)]), ['mvals'])
+smt.axiom('mvals.at', smt.forall([_s, _c, _i], T.rat(mvals(_s, _c), _i) == _c[T.aat(_s, _i)], [T.rat(mvals(_s, _c), _i)]),
+          ['mvals'])
+
+
+@specfn('shifted_values')
+def _shifted_values(run, d, eps):
+    """[v + eps for v in d.values()]"""
+    from .libnp import rshift
+    m = _mapo(run, d)
+    return SeqV('R', rshift(mvals(m.keys, m.cols['']), real(eps)), True)
+
+
+@specfn('draw_dirichlet')
+def _draw_dirichlet(run, s, alpha, n):
+    return MatV(LC.draw_dir(_rs(s), _seq(run, alpha, 'R').term, intterm(n)))
+
+
+@specfn('next_dirichlet')
+def _next_dirichlet(run, s, alpha, n):
+    return OpaqueV(LC.next_dir(_rs(s), _seq(run, alpha, 'R').term, intterm(n)), 'rngstate')
